@@ -247,7 +247,8 @@ class NestedTransition(Transition):
             event_data.machine.state_cls.separator)
 
         scope = event_data.machine.get_global_name(join=False)
-        tmp_tree = state_tree.get(dst_name_path[0], None)
+        # the destination of a transition defined inside a state is relative to that state
+        tmp_tree = reduce(dict.get, scope, state_tree).get(dst_name_path[0], None)
         root = []
         while tmp_tree is not None:
             root.append(dst_name_path.pop(0))
